@@ -80,6 +80,8 @@ Definition act_le (p p' : progress) : Prop := recent_active p = true -> recent_a
    recent_active flag is cleared *)
 Definition W (r r' : raft) : Prop :=
   r_lead_transferee r' = r_lead_transferee r /\
+  r_heartbeat_elapsed r' = r_heartbeat_elapsed r /\
+  r_election_elapsed r' <= r_election_elapsed r /\
   t_conf (r_prs r') = t_conf (r_prs r) /\
   forall id p, get_pr r id = Some p -> exists p', get_pr r' id = Some p' /\ act_le p p'.
 
@@ -90,11 +92,15 @@ Lemma act_le_eq p p' : recent_active p' = recent_active p -> act_le p p'.
 Proof. unfold act_le. intros E H. congruence. Qed.
 
 Lemma W_refl r : W r r.
-Proof. split; [reflexivity|]. split; [reflexivity|]. intros id p H. exists p. split; [exact H|apply act_le_refl]. Qed.
+Proof.
+  split; [reflexivity|]. split; [reflexivity|]. split; [lia|]. split; [reflexivity|].
+  intros id p H. exists p. split; [exact H|apply act_le_refl].
+Qed.
 
 Lemma W_trans a b c : W a b -> W b c -> W a c.
 Proof.
-  intros (A1 & A2 & A3) (B1 & B2 & B3). split; [congruence|]. split; [congruence|].
+  intros (A1 & Ah & Ae & A2 & A3) (B1 & Bh & Be & B2 & B3). split; [congruence|]. split; [congruence|].
+  split; [lia|]. split; [congruence|].
   intros id p H. destruct (A3 id p H) as (p1 & H1 & L1). destruct (B3 id p1 H1) as (p2 & H2 & L2).
   exists p2. split; [exact H2|]. intros E. apply L2, L1, E.
 Qed.
@@ -111,9 +117,11 @@ Proof.
 Qed.
 
 Lemma W_prs r r' :
-  r_prs r' = r_prs r -> r_lead_transferee r' = r_lead_transferee r -> W r r'.
+  r_prs r' = r_prs r -> r_lead_transferee r' = r_lead_transferee r ->
+  r_heartbeat_elapsed r' = r_heartbeat_elapsed r -> r_election_elapsed r' = r_election_elapsed r ->
+  W r r'.
 Proof.
-  intros E T. split; [exact T|]. split; [rewrite E; reflexivity|].
+  intros E T Hh He. split; [exact T|]. split; [exact Hh|]. split; [lia|]. split; [rewrite E; reflexivity|].
   intros id p H. exists p. split; [unfold get_pr; rewrite E; exact H|apply act_le_refl].
 Qed.
 
@@ -233,7 +241,7 @@ Qed.
 Lemma W_put r id p p' :
   get_pr r id = Some p -> act_le p p' -> W r (put_pr r id p').
 Proof.
-  intros Hg Hl. split; [reflexivity|]. split; [reflexivity|].
+  intros Hg Hl. split; [reflexivity|]. split; [reflexivity|]. split; [cbn; lia|]. split; [reflexivity|].
   intros id' q Hq. destruct (N.eq_dec id' id) as [->|Hne].
   - exists p'. split; [apply get_pr_put_same|]. assert (q = p) by congruence. subst q. exact Hl.
   - exists q. split; [rewrite get_pr_put_other by exact Hne; exact Hq|apply act_le_refl].
@@ -324,9 +332,10 @@ Qed.
 
 Lemma LF_same r r' :
   keeps r r' -> r_prs r' = r_prs r -> r_lead_transferee r' = r_lead_transferee r ->
+  r_heartbeat_elapsed r' = r_heartbeat_elapsed r -> r_election_elapsed r' = r_election_elapsed r ->
   r_msgs r' = r_msgs r -> LF r r'.
 Proof.
-  intros K P T M. split; [exact K|]. split; [apply W_prs; assumption|].
+  intros K P T Hh He M. split; [exact K|]. split; [apply W_prs; assumption|].
   unfold qpres. rewrite M. auto.
 Qed.
 
@@ -335,9 +344,11 @@ Proof.
   intros H. pose proof (append_entry_keeps _ _ _ _ H) as K.
   unfold append_entry in H.
   destruct (maybe_increase_uncommitted_size r es) as [r1 ok] eqn:E.
-  assert (E1 : r_prs r1 = r_prs r /\ r_lead_transferee r1 = r_lead_transferee r /\ r_msgs r1 = r_msgs r).
-  { unfold maybe_increase_uncommitted_size in E. dtop E; [okinv E; auto|]. dtop E; okinv E; auto. }
-  destruct E1 as (P & T & M).
+  assert (E1 : r_prs r1 = r_prs r /\ r_lead_transferee r1 = r_lead_transferee r /\
+               r_heartbeat_elapsed r1 = r_heartbeat_elapsed r /\
+               r_election_elapsed r1 = r_election_elapsed r /\ r_msgs r1 = r_msgs r).
+  { unfold maybe_increase_uncommitted_size in E. dtop E; [okinv E; auto 6|]. dtop E; okinv E; auto 6. }
+  destruct E1 as (P & T & Hh & He & M).
   destruct ok; cbn [negb] in H.
   - ib H y Hy. okinv H. apply LF_same; assumption.
   - okinv H. apply LF_same; assumption.
@@ -375,7 +386,7 @@ Lemma LF_activates r1 r2 id :
   LF r1 r2 -> (exists p, get_pr r1 id = Some p /\ recent_active p = true) ->
   exists p', get_pr r2 id = Some p' /\ recent_active p' = true.
 Proof.
-  intros (_ & (_ & _ & Wp) & _) (p & G & A). destruct (Wp id p G) as (p' & G' & L).
+  intros (_ & (_ & _ & _ & _ & Wp) & _) (p & G & A). destruct (Wp id p G) as (p' & G' & L).
   exists p'. split; [exact G'|apply L, A].
 Qed.
 
@@ -494,4 +505,130 @@ Proof.
         apply IH in E. eapply LF_trans; [|exact E]. apply LF_same; reflexivity.
 Qed.
 
-End Window.
+(* ------------------------------------------------------------------ *)
+(* Part 3: the leader's step *)
+
+(* a message the leader of term [t] can take without harm: no local check-quorum order,
+   no transfer request, no term above t except a pre-vote request's, and (pre-)vote
+   requests do not claim to come from a majority follower *)
+Definition okL (t : N) (m : msg) : Prop :=
+  m_type m <> MsgCheckQuorum /\ m_type m <> MsgTransferLeader /\
+  (m_term m <= t \/ m_type m = MsgRequestPreVote) /\
+  ((m_type m = MsgRequestVote \/ m_type m = MsgRequestPreVote) -> ~ In (m_from m) ids).
+
+Lemma step_leader_LF r m r' c :
+  r_lead_transferee r = None ->
+  m_type m <> MsgCheckQuorum -> m_type m <> MsgTransferLeader ->
+  step_leader r m = Ok (r', c) ->
+  LF r r' /\
+  ((m_type m = MsgHeartbeatResponse \/ m_type m = MsgAppendResponse) -> activates r r' (m_from m)).
+Proof.
+  intros HT Hcq Htl. unfold step_leader. intros H.
+  assert (Hna : forall ty, m_type m = ty -> ty <> MsgHeartbeatResponse -> ty <> MsgAppendResponse ->
+     (m_type m = MsgHeartbeatResponse \/ m_type m = MsgAppendResponse) -> activates r r' (m_from m)).
+  { intros ty E N1 N2 [X|X]; congruence. }
+  destruct (m_type m =? MsgBeat) eqn:E1.
+  { apply N.eqb_eq in E1. ib H y Hy. okinv H. split; [|apply (Hna _ E1); discriminate].
+    eapply bcast_heartbeat_with_ctx_LF. exact Hy. }
+  destruct (m_type m =? MsgCheckQuorum) eqn:E2; [apply N.eqb_eq in E2; contradiction|].
+  destruct (m_type m =? MsgPropose) eqn:E3.
+  { apply N.eqb_eq in E3. split; [|apply (Hna _ E3); discriminate].
+    destruct (m_entries m); [discriminate|].
+    destruct (get_pr r (r_id r)); [|okinv H; apply LF_refl].
+    destruct (r_lead_transferee r); [okinv H; apply LF_refl|].
+    destruct (filter_conf_changes r _ _ 0) as [[r1 ents] ok] eqn:E.
+    apply filter_conf_changes_LF in E.
+    destruct ok; cbn [negb] in H; [|okinv H; exact E].
+    ib H y Hy. destruct y as [r2 appended]. apply append_entry_LF in Hy.
+    destruct appended; cbn [negb] in H; [|okinv H; eapply LF_trans; eassumption].
+    ib H z Hz. okinv H. apply bcast_append_LF in Hz.
+    eapply LF_trans; [exact E|]. eapply LF_trans; eassumption. }
+  destruct (m_type m =? MsgReadIndex) eqn:E4.
+  { apply N.eqb_eq in E4. split; [|apply (Hna _ E4); discriminate].
+    ib H y Hy. destruct y; cbn [negb] in H; [|okinv H; apply LF_refl].
+    assert (Hnow : forall r' c,
+      (x <- handle_ready_read_index r m (committed (r_log r)) ;;
+       let '(r1, om) := x in
+       r2 <- match om with Some mm => send r1 mm | None => Ok r1 end ;; Ok (r2, E_OK)) = Ok (r', c) ->
+      LF r r').
+    { intros ra ca Ha. ib Ha z Hz. destruct z as [r1 om].
+      apply handle_ready_read_index_LF in Hz. destruct Hz as [A B]. ib Ha w Hw. okinv Ha.
+      destruct om as [x|]; [|okinv Hw; exact A]. destruct B as [B1 B2].
+      apply send_LF in Hw; [|left; split; [exact B1|rewrite B2; right; right; right; left; reflexivity]].
+      destruct Hw. eapply LF_trans; [exact A|apply msgs_only_LF; assumption]. }
+    dtop H; [eapply Hnow; exact H|].
+    dtop H; [|eapply Hnow; exact H].
+    ib H ctx Hctx. ib H ro' Hro. ib H z Hz. okinv H.
+    apply bcast_heartbeat_with_ctx_LF in Hz. eapply LF_trans; [|exact Hz]. apply LF_same; reflexivity. }
+  destruct (m_type m =? MsgAppendResponse) eqn:E5.
+  { ib H y Hy. okinv H. apply handle_append_response_LF in Hy; [|exact HT].
+    destruct Hy as [A B]. split; [exact A|intros _; exact B]. }
+  destruct (m_type m =? MsgHeartbeatResponse) eqn:E6.
+  { ib H y Hy. okinv H. apply handle_heartbeat_response_LF in Hy.
+    destruct Hy as [A B]. split; [exact A|intros _; exact B]. }
+  apply N.eqb_neq in E5, E6.
+  split; [|intros [X|X]; contradiction].
+  dtop H; [ib H y Hy; okinv H; eapply handle_snapshot_status_LF; eassumption|].
+  dtop H; [ib H y Hy; okinv H; eapply handle_unreachable_LF; eassumption|].
+  dtop H; [apply N.eqb_eq in Heqb1; contradiction|].
+  okinv H. apply LF_refl.
+Qed.
+
+Theorem leader_step_LF r m r' c :
+  r_state r = Leader -> r_lead_transferee r = None -> r_leader_id r <> INVALID_ID ->
+  okL (r_term r) m -> step r m = Ok (r', c) ->
+  LF r r' /\
+  ((m_type m = MsgHeartbeatResponse \/ m_type m = MsgAppendResponse) -> m_term m = r_term r ->
+   r_term r <> 0 -> activates r r' (m_from m)).
+Proof.
+  intros Hs HT Hl (Hcq & Htl & Hterm & Hfrom) H.
+  rewrite step_eq in H. ib H pre Hpre. apply step_pre_cases in Hpre.
+  destruct pre as [[r1 c1]|r1].
+  - okinv H. destruct Hpre as (_ & Hz & [(Hgt & _ & ->)|(Hlt & Hr)]).
+    + split; [apply LF_refl|]. intros _ E. lia.
+    + split; [|intros _ E; lia].
+      unfold low_term_reply in Hr. dtop Hr.
+      * apply send_LF in Hr; [destruct Hr; apply msgs_only_LF; assumption|].
+        left. split; [reflexivity|right; right; right; right; reflexivity].
+      * dtop Hr; [|okinv Hr; apply LF_refl]. apply N.eqb_eq in Heqb0.
+        apply send_LF in Hr; [destruct Hr; apply msgs_only_LF; assumption|].
+        right. cbn. apply Hfrom. right. exact Heqb0.
+  - destruct Hpre as [[-> Hc]|(L & D & E & _)].
+    2:{ exfalso. destruct Hterm as [Q|Q]; [lia|]. unfold exempt in E. rewrite Q in E. discriminate. }
+    unfold step_body in H.
+    destruct (m_type m =? MsgHup) eqn:Ehup.
+    { apply N.eqb_eq in Ehup. ib H y Hy. okinv H. apply hup_cases in Hy.
+      destruct Hy as [->|(C & _)]; [|contradiction].
+      split; [apply LF_refl|]. intros [X|X]; rewrite Ehup in X; discriminate. }
+    destruct ((m_type m =? MsgRequestVote) || (m_type m =? MsgRequestPreVote)) eqn:Ev.
+    { assert (Ht : m_type m = MsgRequestVote \/ m_type m = MsgRequestPreVote)
+        by (apply orb_prop in Ev; destruct Ev as [X|X]; apply N.eqb_eq in X; auto).
+      split; [|intros [X|X]; destruct Ht as [Y|Y]; rewrite Y in X; discriminate].
+      assert (Hb : step_body r m = Ok (r', c)) by (unfold step_body; rewrite Ehup, Ev; exact H).
+      pose proof (Hfrom Ht) as Hn.
+      assert (Hpush : forall x, m_to x = m_from m -> LF r (push r x)).
+      { intros x Hx. apply msgs_only_LF; [unfold msgs_only, push; reflexivity|].
+        unfold push. apply push_qpres. rewrite Hx. intros C. contradiction. }
+      apply step_body_vote in Hb; [|exact Ht].
+      destruct Hb as [_ [(G & _ & ->)|(_ & _ & ci & _ & Hm)]].
+      - destruct (m_type m =? MsgRequestVote) eqn:Erv; [|apply Hpush; reflexivity].
+        (* a leader grants a vote only to the node it already voted for *)
+        unfold grants in G. ib G utd Hu. injection G as G.
+        apply andb_prop in G. destruct G as [G _]. apply andb_prop in G. destruct G as [Hcv _].
+        assert (Hvote : r_vote r = m_from m).
+        { apply orb_prop in Hcv. destruct Hcv as [Hcv|Hcv].
+          - apply orb_prop in Hcv. destruct Hcv as [Hcv|Hcv]; [apply N.eqb_eq; exact Hcv|].
+            apply andb_prop in Hcv. destruct Hcv as [_ Hcv]. apply N.eqb_eq in Hcv. contradiction.
+          - apply andb_prop in Hcv. destruct Hcv as [Hcv _]. apply N.eqb_eq in Erv, Hcv. rewrite Erv in Hcv. discriminate. }
+        eapply LF_trans; [apply (Hpush (vote_resp r m (resp_type m) false (m_term m) (0, 0))); reflexivity|].
+        split; [unfold keeps, core; cbn; rewrite Hvote; reflexivity|].
+        split; [|intros F; exact F].
+        split; [reflexivity|]. split; [reflexivity|]. split; [cbn; lia|]. split; [reflexivity|].
+        intros id p Hp. exists p. split; [exact Hp|apply act_le_refl].
+      - apply maybe_commit_by_vote_cases in Hm. destruct Hm as [E|([S|S] & _)]; [|cbn in S; congruence..].
+        eapply LF_trans; [apply (Hpush (vote_resp r m (resp_type m) true (r_term r) ci)); reflexivity|].
+        rewrite E. apply LF_same; reflexivity. }
+    rewrite Hs in H. apply N.eqb_neq in Ehup.
+    apply step_leader_LF in H; [|assumption..]. destruct H as [A B].
+    split; [exact A|]. intros X _ _. apply B, X.
+Qed.
